@@ -271,19 +271,32 @@ class Ref:
         ev = np.linalg.eigvalsh(self.H)
         self.condH = float(ev[-1] / ev[0]) if ev[0] > 0 else float("inf")
 
-    def tols(self, ubar):
+    def tols(self, ubar, eps=2.0 ** -52):
         """componentwise error scales (to be multiplied by c*eps): |H^-1| sg and |G| tol_u + xa, where sg / xa are the
         magnitudes of the terms in the gradient / roll-out at the optimum plus, when a nominal trajectory is supplied,
-        at the nominal (the code forms u = ubar + du, x - xbar: rounding proportional to the nominal's size)"""
+        at the nominal (the code forms u = ubar + du, x - xbar: rounding proportional to the nominal's size).
+        Absolute floor: eps * (size of the data) is added to every scale, i.e. quantities below eps^2 relative to the
+        problem's own magnitude count as zero (float32 underflows there)."""
         sg, xa = self.grad_scale(self.u)
+        S = float(max(np.abs(self.x).max(), np.abs(self.u).max(), np.abs(self.c).max(), 0.0))
         if ubar is not None:
             sg2, xa2 = self.grad_scale(np.asarray(ubar, dtype=np.float64))
             sg, xa = sg + sg2, xa + xa2
-        tol_u = (self.Hinv_abs @ sg.reshape(-1)).reshape(self.T, self.nc)
+            S = max(S, float(np.abs(ubar).max()))
+        Sg = float(np.abs(self.Q).max() * S + np.abs(self.p).max())
+        sg = sg + eps * Sg
+        tol_u = (self.Hinv_abs @ sg.reshape(-1)).reshape(self.T, self.nc) + eps * S
         tx = np.zeros((self.T + 1, self.ns))
         for t in range(self.T + 1):
-            tx[t] = np.abs(self.G[t]) @ tol_u.reshape(-1) + xa[t]
+            tx[t] = np.abs(self.G[t]) @ tol_u.reshape(-1) + xa[t] + eps * S
         return tol_u, tx, sg
+
+    def floor(self, ubar, eps):
+        """absolute floor eps^2 * (data magnitude) for residual-type checks: (value floor, cost floor)"""
+        S = float(max(np.abs(self.x).max(), np.abs(self.u).max(), np.abs(self.c).max(), 0.0))
+        if ubar is not None:
+            S = max(S, float(np.abs(ubar).max()))
+        return eps * eps * S, eps * eps * float(np.abs(self.Q).max() * S * S + np.abs(self.p).max() * S)
 
     def rollout(self, u):
         x = np.zeros((self.T + 1, self.ns))
